@@ -406,23 +406,17 @@ def note_array_to_score(
             note_array = create_beats_from_divs(note_array, divs)
 
     if divs is None:
-        # find first note with nonzero duration (in case score starts with grace_note).
-        for idx, dur in enumerate(note_array["duration_beat"]):
-            if dur != 0:
-                break
+        # use the notes with nonzero duration (grace notes have none). A note held
+        # across a change of the beat unit mixes two beat lengths, so the value
+        # that most notes agree on is taken rather than that of the first note.
+        sounding = note_array[note_array["duration_beat"] != 0]
+        if len(sounding) == 0:
+            sounding = note_array[:1]
+        ratios = sounding["duration_div"] / sounding["duration_beat"]
         if all([x in dtypes for x in ts_case]):
-            divs = int(
-                round(
-                    (note_array[idx]["duration_div"] / note_array[idx]["duration_beat"])
-                    / (4 / note_array[idx]["ts_beat_type"])
-                )
-            )
-        else:
-            divs = int(
-                round(
-                    note_array[idx]["duration_div"] / note_array[idx]["duration_beat"]
-                )
-            )
+            ratios = ratios / (4 / sounding["ts_beat_type"])
+        candidates, counts = np.unique(np.round(ratios).astype(int), return_counts=True)
+        divs = int(candidates[np.argmax(counts)])
 
     # Test Note array for negative durations
     if not np.all(note_array["duration_div"] >= 0):
